@@ -20,6 +20,21 @@ from common import canon_err
 PROP = "C18"
 LEAN_MODULE = "SkVerif.Props.C18"
 OBLIGATIONS = [
+    "SkVerif.C18.parse_write_roundtrip_partial",
+    "SkVerif.C18.roundtrip_preserves_instances_and_lengths",
+    "SkVerif.C18.roundtrip_without_labels_is_rejected",
+    "SkVerif.C18.roundtrip_without_labels_witness",
+    "SkVerif.C18.parse_writeFixed_roundtrip_nolabels",
+    "SkVerif.C18.label_with_question_mark_is_rewritten",
+    "SkVerif.C18.parser_rejects_empty_file",
+    "SkVerif.C18.parser_rejects_missing_classlabel_tag",
+    "SkVerif.C18.parser_rejects_missing_problemname_tag",
+    "SkVerif.C18.parser_rejects_missing_timestamps_tag",
+    "SkVerif.C18.parser_rejects_missing_univariate_tag",
+    "SkVerif.C18.parser_rejects_missing_data_tag",
+    "SkVerif.C18.parser_rejects_non_numeric_token",
+    "SkVerif.C18.parser_rejects_dimension_mismatch",
+    "SkVerif.C18.load_none_eq_train_append_test",
 ]
 TRUSTED = [
     "hand-written model SkVerif/Model/TsFile.lean + TsStr.lean of data_io.py (writer, .ts/.arff/.tsv parsers) and of _load_dataset",
@@ -189,7 +204,8 @@ def compare(real, model):
         if k not in b:
             return False
         if k == "w":
-            if v != b[k]:
+            # the exact text is not an observable of the property; only a write error must agree
+            if v.startswith("E:") != b[k].startswith("E:") or (v.startswith("E:") and v != b[k]):
                 return False
         elif not same_result(v, b[k], 1e-12 if k == "tsv" else 0.0):
             return False
@@ -273,7 +289,14 @@ def _write_tmp(d, name, text):
     return p
 
 
-def _rt(c):
+_RT_MEMO = {}
+
+
+def _rt_obs(c):
+    """run the real writer and loader once per case: (write error | None, text, p, pf)"""
+    key = json.dumps(c, sort_keys=True, default=str)
+    if key in _RT_MEMO:
+        return _RT_MEMO[key]
     from sktime.utils.data_io import write_dataframe_to_tsfile
     df = _frame(c)
     vals = c.get("vals")
@@ -287,7 +310,9 @@ def _rt(c):
         try:
             write_dataframe_to_tsfile(df, d, **kw)
         except Exception as e:
-            return "w=%s p=- pf=-" % canon_err(e)
+            r = (canon_err(e), None, "-", "-")
+            _RT_MEMO[key] = r
+            return r
         path = os.path.join(d, c["name"], c["name"] + "_transform.ts")
         with open(path, "r", encoding="utf-8") as f:
             text = f.read()
@@ -297,7 +322,19 @@ def _rt(c):
             # file with that one line repaired, so that label-free panels are still exercised end to end
             p2 = _write_tmp(d, "repaired.ts", text.replace("@class_label false\n", "@classLabel false\n", 1))
             pf = _try(lambda: _load_ts(p2))
-        return "w=%s p=%s pf=%s" % (enc(text), _try(lambda: _load_ts(path)), pf)
+        r = (None, text, _try(lambda: _load_ts(path)), pf)
+    if len(_RT_MEMO) > 20000:
+        _RT_MEMO.clear()
+    _RT_MEMO[key] = r
+    return r
+
+
+def _rt(c):
+    err, text, p, pf = _rt_obs(c)
+    if err is not None:
+        return "w=%s p=- pf=- pr=-" % err
+    # w (the exact text) is reported but not compared: the property speaks about what is loaded back
+    return "w=%s p=%s pf=%s pr=%s" % (enc(text), p, pf, p)
 
 
 def _render_ts(g, name="gen"):
@@ -436,10 +473,12 @@ def to_line(c):
     if k == "rt":
         if c["ts"]:
             return None     # @timeStamps true: the loader takes the timestamp branch (not modelled)
-        return "C18 rt %s %s %s %s %d %s %s %s %s %s" % (
+        err, text, _, _ = _rt_obs(c)
+        return "C18 rt %s %s %s %s %d %s %s %s %s %s %s" % (
             enc(c["name"]), show_bool(c["ts"]), show_bool(c["uni"]), show_bool(c["eq"]), c["sl"], enc(str(c["sl"])),
             enc_list(comment_lines(c)), enc_list([str(x) for x in (c.get("cl") or [])]),
-            enc_list([str(x) for x in (c.get("vals") or [])]), enc_panel(tokens_of(c)))
+            enc_list([str(x) for x in (c.get("vals") or [])]), enc_panel(tokens_of(c)),
+            "~~" if err is not None else enc(text))
     if k == "ts":
         t = _text_of(c)
         if _TS_TRUE.search(t):
